@@ -99,8 +99,18 @@ def gen_case(rng):
         ext, docs = contents[top]
         d0 = dict(docs[0])
         d0["$parent"] = rng.choice([other, [other], [other, names[0]] if depth > 1 else [other]])
-        contents[top] = (ext, [d0])
         meta["kind"] = "parent-directive"
+        if rng.random() < 0.4:
+            # a $parent LIST whose entries have chains of their own, of different depths, in every order: each entry is preceded by
+            # its own bases (depth first, left to right) - the order of the entries decides, not how deep their chains are
+            contents["y"] = (rng.choice(EXTS), [{"y": 1}])
+            contents["x"] = (rng.choice(EXTS), [{"x": 1, "a": {"z": 2}}])
+            contents["x.one"] = (rng.choice(EXTS), [{"one": 1}])
+            contents["x.one.two"] = (rng.choice(EXTS), [{"two": 2}])
+            ps = rng.sample(["y", "x.one", "x.one.two", "other", names[0]], rng.randint(2, 3))
+            d0["$parent"] = ps
+            meta["kind"] = "parent-list-chains"
+        contents[top] = (ext, [d0])
     elif kind < 0.7:
         ext, docs = contents[top]
         d0 = dict(docs[0])
